@@ -231,6 +231,76 @@ fn p2p_link_delay_persistence(rep: &mut Report, seed: u64) {
     judge(rep, &node, "after the following BMCA run");
 }
 
+/// currentDS.stepsRemoved is live state of the instance whether or not a port is slave at the
+/// moment: between the announce receipt timeout of the slave port and the next BMCA run the master
+/// ports still announce the old distance, and that is what the observation has to show.
+fn steps_removed_without_slave_port(rep: &mut Report, seed: u64) {
+    use statime::observability::port::PortState;
+    let replay = json!({"steps_removed_without_slave_seed": seed});
+    let mut rng = StdRng::seed_from_u64(seed);
+    let mut b = Build::new(5);
+    b.n_ports = 2;
+    b.seed = seed;
+    if rng.gen_bool(0.3) {
+        b.slave_only = true;
+        b.clock_class = 255;
+    }
+    let slave_only = b.slave_only;
+    let Ok(built) = b.build() else { return };
+    let mut node = built.node;
+    let mut remote = Remote::new(7, 1);
+    remote.body.steps_removed = rng.gen_range(0..200);
+    if !slave_only && node.call(1, Call::AnnounceReceiptTimer).is_err() {
+        return;
+    }
+    if make_slave(&mut node, 0, &mut remote).is_err() || node.port_state(0) != PortState::Slave {
+        return;
+    }
+    let live = remote.body.steps_removed + 1;
+    let shown = node.inst().current_ds(None).steps_removed;
+    rep.ev("steps_removed_observation_checked");
+    if shown != live {
+        rep.violation("C19|live-state|current_ds.steps_removed", &format!("slave of a parent {} steps away: observation shows stepsRemoved {shown}", live - 1), replay.clone());
+    }
+    if node.call(0, Call::AnnounceReceiptTimer).is_err() || node.port_state(0) == PortState::Slave {
+        return;
+    }
+    // no BMCA run yet: what do the master ports announce, what does the observation show?
+    let mut announced = None;
+    for p in 0..2 {
+        if node.port_state(p) != PortState::Master {
+            continue;
+        }
+        if let Ok(acts) = node.call(p, Call::AnnounceTimer) {
+            for a in acts {
+                if let Act::SendGeneral { data, .. } = a {
+                    if let Ok(m) = Msg::decode(&data) {
+                        if let crate::refcodec::Body::Announce(ab) = &m.body {
+                            announced = Some(ab.steps_removed);
+                        }
+                    }
+                }
+            }
+        }
+    }
+    let shown = node.inst().current_ds(None).steps_removed;
+    rep.ev("steps_removed_observation_checked");
+    rep.ev("steps_removed_checked_without_slave_port");
+    match announced {
+        Some(a) if a != shown => rep.violation(
+            "C19|live-state|current_ds.steps_removed",
+            &format!("no port is slave (announce receipt timeout, BMCA has not run yet): the master port announces stepsRemoved {a}, the observation shows {shown}"),
+            replay.clone(),
+        ),
+        None if slave_only && shown != live => rep.violation(
+            "C19|live-state|current_ds.steps_removed",
+            &format!("slave-only instance lost its parent (no BMCA decision since): live stepsRemoved is still {live}, the observation shows {shown}"),
+            replay.clone(),
+        ),
+        _ => {}
+    }
+}
+
 pub fn check_state(rep: &mut Report, ctx: &mut Ctx, st: &ObservableState, label: &str) {
     let replay = json!({"label": label, "state": serde_json::to_value(st).unwrap_or(json!(null))});
     // (2) the JSON hop
@@ -347,7 +417,7 @@ fn state_of(node: &Node, contribution: Option<FilterEstimate>, prog: ProgramData
 
 pub fn run(rep: &mut Report, tier: &str, seed: u64, shard: (u32, u32), _replay: Option<&str>) {
     rep.rule = "instance states taken from live simulated instances through the public getters the daemon uses (grandmaster, slave with servo estimates, 1-8-port boundary clocks, P2P ports with measured link delay, Faulty/Passive/Listening ports, path lists 0..128, every time-properties combination) plus synthetic extremes (offsets/delays up to +-10 s and beyond 64 bits of 2^-32 ns, negative values), served to the real exporter over a harness observation socket; the HTTP response is parsed independently and every metric compared; distinct = distinct JSON states".into();
-    rep.require(&["aborted_scrape", "p2p_mean_link_delay_checked", "json_roundtrip", "http_response", "exposition_parsed", "metric_compared"]);
+    rep.require(&["aborted_scrape", "p2p_mean_link_delay_checked", "steps_removed_checked_without_slave_port", "json_roundtrip", "http_response", "exposition_parsed", "metric_compared"]);
     let mut ctx = match start_ctx(&format!("c19-{}", shard.0)) {
         Ok(c) => c,
         Err(e) => {
@@ -474,6 +544,7 @@ pub fn run(rep: &mut Report, tier: &str, seed: u64, shard: (u32, u32), _replay: 
             // the previous scrape was aborted by its client: this one must be unaffected
             aborted_scrape(rep, &mut ctx, &st);
             p2p_link_delay_persistence(rep, rng.gen());
+            steps_removed_without_slave_port(rep, rng.gen());
         }
         check_state(rep, &mut ctx, &st, &format!("scenario {scenario}, {n_ports} ports"));
         rep.evaluations += 1;
